@@ -1,7 +1,8 @@
 (* C08 -- Unnamed values are numbered exactly as LLVM numbers them. *)
-From Coq Require Import List Bool ZArith.
+From Coq Require Import List Bool ZArith String.
 From LLIR Require Import Model.Numbering Proofs.NumberingProofs.
 From LLIR Require Pipeline.MicroIR Pipeline.MicroIRProofs Pipeline.MicroIRNumbering.
+From LLIR Require Model.GoEval Proofs.IdPassRefinement.
 Import ListNotations.
 Local Open Scope Z_scope.
 
@@ -67,3 +68,37 @@ Proof. exact MicroIRNumbering.use_binds_nth_unnamed. Qed.
    unnamed and a named instruction; it is the translation of its own embedding, MicroIRProofs.ex_roundtrip) *)
 Example C08_numbering_example : MicroIRNumbering.nums (MicroIR.ldefs MicroIRProofs.ex_func) = [0; 1; 2].
 Proof. reflexivity. Qed.
+
+(* ---- the ID passes as regenerated from ir/func.go and ir/module.go ---- *)
+(* the regenerated Func.AssignIDs (table idpass_bodies: the setName closure closure-converted, mutex calls dropped)
+   on a function of any shape F (parameters, blocks, instructions and terminators with any types, names and other
+   fields; instructions that are not namedVar and namedVars of void type are skipped as in Go) whose numbered
+   entities carry the stored IDs ids leaves exactly the IDs the model assign_ids computes and returns nil -- and
+   returns an error where the model does (the receiver is then as the walk left it) *)
+Theorem C08_generated_assign_ids_is_the_model :
+  forall (impl : String.string -> String.string -> bool) (F : IdPassRefinement.fshape) (ids : list Z) (depth : nat),
+  IdPassRefinement.wf_fshape impl F -> List.length ids = List.length (IdPassRefinement.func_flags F) -> (2 <= depth)%nat ->
+  match Numbering.assign_ids (IdPassRefinement.mk_items (IdPassRefinement.func_flags F) ids) with
+  | Numbering.Ok l' =>
+      IdPassRefinement.run_idpass impl IdPassRefinement.ids_env depth "ir.Func"%string "AssignIDs"%string (IdPassRefinement.func_obj F ids)
+      = GoEval.Ok (IdPassRefinement.func_obj F (map Numbering.it_id l'), GoEval.VNil)
+  | Numbering.Err =>
+      exists f', IdPassRefinement.run_idpass impl IdPassRefinement.ids_env depth "ir.Func"%string "AssignIDs"%string (IdPassRefinement.func_obj F ids)
+                 = GoEval.Ok (f', IdPassRefinement.an_error)
+  end.
+Proof. exact IdPassRefinement.generated_assign_ids_is_model. Qed.
+(* the same for Module.AssignGlobalIDs over globals, aliases, ifuncs and functions of a module of any shape *)
+Theorem C08_generated_assign_global_ids_is_the_model :
+  forall (M : IdPassRefinement.mshape) (ids : list Z) (depth : nat),
+  IdPassRefinement.wf_mshape M -> List.length ids = List.length (IdPassRefinement.mod_flags M) -> (2 <= depth)%nat ->
+  match Numbering.assign_ids (IdPassRefinement.mk_items (IdPassRefinement.mod_flags M) ids) with
+  | Numbering.Ok l' =>
+      IdPassRefinement.run_idpass IdPassRefinement.no_impl [] depth "ir.Module"%string "AssignGlobalIDs"%string (IdPassRefinement.mod_obj M ids)
+      = GoEval.Ok (IdPassRefinement.mod_obj M (map Numbering.it_id l'), GoEval.VNil)
+  | Numbering.Err =>
+      exists m', IdPassRefinement.run_idpass IdPassRefinement.no_impl [] depth "ir.Module"%string "AssignGlobalIDs"%string (IdPassRefinement.mod_obj M ids)
+                 = GoEval.Ok (m', IdPassRefinement.an_error)
+  end.
+Proof. exact IdPassRefinement.generated_assign_global_ids_is_model. Qed.
+Print Assumptions C08_generated_assign_ids_is_the_model.
+Print Assumptions C08_generated_assign_global_ids_is_the_model.
